@@ -221,3 +221,16 @@ Theorem ctor_metadata_is_source : forall ids md,
    ctor_init_samp_gen ids (Some l) = Some l /\ ctor_init_obs_gen ids (Some l) = Some l).
 Proof. intros ids md. split; [apply ctor_metadata_bridge|apply ctor_init_keeps_wrong_size]. Qed.
 Print Assumptions ctor_metadata_is_source.
+
+(* ---- translator tie T17: the Python-level wrappers (_filter.pyx _filter, Table.filter / remove_empty / head) are
+   REGENERATED from the source on every check (tools/py2v_filt -> Gen/FilterWrapGen.v over Gen/FiltPrelude.v);
+   bridges in Proofs/GenBridgeFilterWrapProofs.v *)
+From BiomV Require Import Gen.FiltPrelude Gen.FilterWrapGen Proofs.GenBridgeFilterWrapProofs.
+Theorem filter_ids_is_source_partial : forall keep invert a t inplace, NoDup (oids t) -> NoDup (sids t) ->
+  gen_filter (lift t) (KIter keep) (name_of a) invert inplace =
+  match filter_ids keep invert a t with
+  | ROk t' => ROk (if inplace then lift t' else lift t, lift t')
+  | RErr c => RErr c
+  end.
+Proof. exact gen_filter_ids_is_source_partial. Qed.
+Print Assumptions filter_ids_is_source_partial.
